@@ -220,15 +220,15 @@ def plan(tier, seed, jobs):
     else:
         specs.append({"kind": "unmount", "n": 60})
         for j in range(jobs * 2):
-            specs.append({"kind": "seqs", "emitter": "inotify", "n": 8000, "seed": seed, "j": j, "budget_s": 700, "enum": True, "of": jobs * 2})
+            specs.append({"kind": "seqs", "emitter": "inotify", "n": 8000, "seed": seed, "j": j, "budget_s": 200, "enum": True, "of": jobs * 2})
         for j in range(jobs):
-            specs.append({"kind": "seqs", "emitter": "polling", "n": 5000, "seed": seed, "j": j, "budget_s": 700})
+            specs.append({"kind": "seqs", "emitter": "polling", "n": 5000, "seed": seed, "j": j, "budget_s": 200})
         for j in range(4):
-            specs.append({"kind": "seqs", "emitter": "scripted", "n": 5000, "seed": seed, "j": j, "budget_s": 700})
+            specs.append({"kind": "seqs", "emitter": "scripted", "n": 5000, "seed": seed, "j": j, "budget_s": 200})
         for j in range(jobs):
-            specs.append({"kind": "multi", "n": 3000, "seed": seed, "j": j, "budget_s": 700})
+            specs.append({"kind": "multi", "n": 3000, "seed": seed, "j": j, "budget_s": 200})
         for j in range(jobs):
-            specs.append({"kind": "holds", "emitter": "inotify", "seed": seed, "j": j, "of": jobs, "budget_s": 900, "reps": 6})
+            specs.append({"kind": "holds", "emitter": "inotify", "seed": seed, "j": j, "of": jobs, "budget_s": 300, "reps": 6})
     return specs
 
 
